@@ -28,6 +28,6 @@ CleanerAcquireSeq == <<
 NodeMapVal == [Alive |-> "Alive", Dead |-> "Dead", CleaningUp |-> "Dead", DoesNotExist |-> "DoesNotExist",
                Starting |-> "DoesNotExist", Err |-> "Undefined"]
 
-LevelVal == [m \in Monitors |-> IF m = "M1" THEN "pm" ELSE "node"]
+LevelsVal == [m \in Monitors |-> {"pm", "cal", "node"}]
 ExcusedVal == {}
 =============================================================================
